@@ -274,6 +274,38 @@ func (c *EvalCtx) localByName(name string) (Val, bool) {
 	return nil, false
 }
 
+// identType: the static type of a local, captured variable or parameter of the function under verification.
+func (c *EvalCtx) identType(name string) types.Type {
+	if c.fr == nil {
+		return nil
+	}
+	base := name
+	if i := strings.Index(name, "__"); i > 0 {
+		base = name[:i]
+	}
+	fn := c.fr.fn
+	for _, b := range fn.Blocks {
+		for _, in := range b.Instrs {
+			if a, ok := in.(*ssa.Alloc); ok && a.Comment == base {
+				return a.Type().(*types.Pointer).Elem()
+			}
+		}
+	}
+	for _, fv := range fn.FreeVars {
+		if fv.Name() == base {
+			if pt, ok := fv.Type().(*types.Pointer); ok {
+				return pt.Elem()
+			}
+		}
+	}
+	for _, p := range fn.Params {
+		if p.Name() == base {
+			return p.Type()
+		}
+	}
+	return nil
+}
+
 func (c *EvalCtx) objVal(obj types.Object) Val {
 	fe := c.fe
 	switch o := obj.(type) {
@@ -640,10 +672,19 @@ func (c *EvalCtx) evalCall(x *ast.CallExpr) Val {
 			return BoolV{tAnd(cs...)}
 		}
 		ref := termOf(v)
+		var static *types.Interface
+		if id, ok := args[0].(*ast.Ident); ok {
+			if t := c.identType(id.Name); t != nil {
+				static, _ = t.Underlying().(*types.Interface)
+			}
+		}
 		for _, tn := range sortedKeys(fe.eng.voc.TypeInvs) {
 			T := fe.eng.lookupType(tn)
 			if T == nil {
 				continue
+			}
+			if static != nil && !types.Implements(types.NewPointer(T), static) {
+				continue // the variable's static type rules this dynamic type out
 			}
 			cond := tAnd(sx("<", "HW", ref), tEq(sx("dyn", ref), tInt(int64(fe.tid(types.NewPointer(T))))))
 			obj := PtrV{Base: ref, Prefix: typeName(T), Pointee: T}
